@@ -1121,10 +1121,14 @@ class ConfigInformation:
             return [ConfigInformation._outputjsonvalue(el, context) for el in value]
 
         elif isinstance(value, dict):
-            return {
+            items = {
                 name: ConfigInformation._outputjsonvalue(el, context)
                 for name, el in value.items()
             }
+            if "type" in items:
+                # The "type" member marks serialized objects: wrap the items
+                return {"type": "dict", "value": items}
+            return items
 
         elif isinstance(value, Path):
             return {"type": "path", "value": str(value)}
@@ -1352,6 +1356,15 @@ class ConfigInformation:
                         key, objects
                     ): ConfigInformation._objectFromParameters(value, objects)
                     for key, value in value.items()
+                }
+
+            # A dictionary with a "type" key
+            if value["type"] == "dict":
+                return {
+                    ConfigInformation._objectFromParameters(
+                        key, objects
+                    ): ConfigInformation._objectFromParameters(item, objects)
+                    for key, item in value["value"].items()
                 }
 
             # The value is an object (that has been serialized first)
